@@ -331,7 +331,7 @@ Section Life.
   (** frozen: nothing that the client or the server can observe changes *)
   Definition frozen (s s' : st) : Prop :=
     s_status s' = s_status s /\ s_log s' = s_log s /\ s_results s' = s_results s /\
-    s_job s' = s_job s /\ s_sleeps s' = s_sleeps s /\ s_last s' = s_last s /\ s_polled s' = s_polled s.
+    s_job s' = s_job s /\ s_last s' = s_last s /\ s_polled s' = s_polled s.
 
   Definition R_term (s : st) (o : list tout) (s' : st) (o' : list tout) : Prop :=
     spec_terminal (s_status s) = true -> o' = o /\ frozen s s'.
@@ -373,8 +373,8 @@ Section Life.
   Lemma R_term_trans a oa b ob c oc : R_term a oa b ob -> R_term b ob c oc -> R_term a oa c oc.
   Proof.
     unfold R_term, frozen. intros H1 H2 Ht. destruct (H1 Ht) as [-> F1].
-    destruct F1 as [A1 [A2 [A3 [A4 [A5 [A6 A7]]]]]].
-    rewrite <- A1 in Ht. destruct (H2 Ht) as [-> [B1 [B2 [B3 [B4 [B5 [B6 B7]]]]]]].
+    destruct F1 as [A1 [A2 [A3 [A4 [A5 A6]]]]].
+    rewrite <- A1 in Ht. destruct (H2 Ht) as [-> [B1 [B2 [B3 [B4 [B5 B6]]]]]].
     repeat split; congruence.
   Qed.
 
